@@ -85,7 +85,7 @@ def check(ctx, only=None, list_only=False):
         "functions_encoded": ["reim_from_znx64_{ref,bnd50_fma}", "init_reim_from_znx64_precomp", "reim_to_znx64_{ref,avx2_bnd50_fma,avx2_bnd63_fma}",
                               "init_reim_to_znx64_precomp", "init_reim_to_tnx_precomp", "reim_to_tnx_{ref,avx,basic_ref}", "cplx_from_znx32_{ref,avx2_fma}",
                               "cplx_from_tnx32_{ref,avx2_fma}", "cplx_to_tnx32_{ref,avx2_fma}", "init_cplx_*_precomp", "dispatch wrappers"],
-        "bounds": "one to four vectors of lanes (m as listed per obligation), EVERY lane symbolic over the whole documented window; divisors 2^0,2^1,2^4,2^16 "
+        "bounds": "declared bound of init_reim_to_znx64_precomp symbolic in [0,64] (kernel selection) and executed at log2bound 50, 51, 63; one to four vectors of lanes (m as listed per obligation), EVERY lane symbolic over the whole documented window; divisors 2^0,2^1,2^4,2^16 "
                   "(all 2^0..2^16 thorough); log2overhead every value 0..48; both cpu flags through the real init_* selection logic",
         "outside": "divisors outside 2^0..2^16; m > 16 (more lanes repeat the same loop body); reim_from_znx32/tnx32 and reim_to_tnx32 are NOT_IMPLEMENTED stubs in the library",
         "assumptions": ["IEEE-754 binary64 round-to-nearest-even as modelled bit-precisely by CBMC", "rint() is CBMC's round-to-nearest-even model",
